@@ -151,7 +151,7 @@ async def check_case(ctx, case):
 
         known_table = {k: v for k, v in table.items() if v is not None}
         cer = E.make_cer({}, {}, {}, packages=known_table)
-        mode = rng.choice(["hardcoded", "cer", "one-table-provider"])
+        mode = rng.choice(["hardcoded", "cer", "one-table-provider", "cer-resolver-without-format", "json-file-list"])
         ctx.count("shipped_resolver_mode:" + mode)
         shipped = await H.with_shipped_evaluators(mode, cer, lambda: parse_expression_including_unresolved_subexpressions(s, resolve_packages=True, replace_time_conditions=True))
         ctx.evaluation()
